@@ -684,9 +684,13 @@ theorem handleMessage_plain (env : CryptoEnv) (bodyOf : Init.BodyOf) (ok : Bytes
     · split at h
       · cases h
       · split at h
-        · split at h
-          · cases h; exact Or.inl rfl
+        · rename_i pc1 _ _ body _ _
+          generalize body ++ (if pc1.unencrypted then tail else []) = d at h
+          split at h
           · cases h
+          · split at h
+            · cases h; exact Or.inl rfl
+            · cases h
         · cases h; exact Or.inr ⟨_, _, rfl⟩
 
 /-! ## arbitrary pending handshakes: independence up to handshake datagrams -/
